@@ -4,6 +4,7 @@ import (
 	"fmt"
 	"go/token"
 	"go/types"
+	"math"
 	"math/big"
 	"math/bits"
 	"strings"
@@ -169,14 +170,36 @@ func init() {
 		"internal/bytealg.IndexByteString": func(fr *frame, a []value) value { return fr.i.indexByte(strBytes(a[0]), a[1]) },
 		"internal/bytealg.Count":           func(fr *frame, a []value) value { return fr.i.countByte(a[0].([]value), a[1]) },
 		"internal/bytealg.CountString":     func(fr *frame, a []value) value { return fr.i.countByte(strBytes(a[0]), a[1]) },
-		"internal/bytealg.MakeNoZero":      func(fr *frame, a []value) value { return makeBytes(int(asInt64(a[0]))) },
-		"strings.HasPrefix":                func(fr *frame, a []value) value { return fr.i.hasPrefix(strBytes(a[0]), strBytes(a[1])) },
-		"strings.HasSuffix":                func(fr *frame, a []value) value { return fr.i.hasSuffix(strBytes(a[0]), strBytes(a[1])) },
-		"bytes.HasPrefix":                  func(fr *frame, a []value) value { return fr.i.hasPrefix(a[0].([]value), a[1].([]value)) },
-		"bytes.HasSuffix":                  func(fr *frame, a []value) value { return fr.i.hasSuffix(a[0].([]value), a[1].([]value)) },
-		"bytes.Equal":                      func(fr *frame, a []value) value { return fr.i.bytesEq(a[0].([]value), a[1].([]value)) },
-		"bytes.Compare":                    func(fr *frame, a []value) value { return fr.i.bytesCompare(a[0].([]value), a[1].([]value)) },
-		"strings.Compare":                  func(fr *frame, a []value) value { return fr.i.bytesCompare(strBytes(a[0]), strBytes(a[1])) },
+		"internal/bytealg.IndexString": func(fr *frame, a []value) value {
+			hs, ok1 := concreteBytes(strBytes(a[0]))
+			nd, ok2 := concreteBytes(strBytes(a[1]))
+			if !ok1 || !ok2 {
+				panic(unsupported("strings.Index on symbolic strings"))
+			}
+			return strings.Index(string(hs), string(nd))
+		},
+		"internal/bytealg.Index": func(fr *frame, a []value) value {
+			hs, ok1 := concreteBytes(a[0].([]value))
+			nd, ok2 := concreteBytes(a[1].([]value))
+			if !ok1 || !ok2 {
+				panic(unsupported("bytes.Index on symbolic bytes"))
+			}
+			return strings.Index(string(hs), string(nd))
+		},
+		"math.Float64bits":            func(fr *frame, a []value) value { return math.Float64bits(a[0].(float64)) },
+		"math.Float64frombits":        func(fr *frame, a []value) value { return math.Float64frombits(a[0].(uint64)) },
+		"math.Float32bits":            func(fr *frame, a []value) value { return math.Float32bits(a[0].(float32)) },
+		"math.Float32frombits":        func(fr *frame, a []value) value { return math.Float32frombits(a[0].(uint32)) },
+		"internal/stringslite.Clone":  func(fr *frame, a []value) value { return a[0] },
+		"strings.Clone":               func(fr *frame, a []value) value { return a[0] },
+		"internal/bytealg.MakeNoZero": func(fr *frame, a []value) value { return makeBytes(int(asInt64(a[0]))) },
+		"strings.HasPrefix":           func(fr *frame, a []value) value { return fr.i.hasPrefix(strBytes(a[0]), strBytes(a[1])) },
+		"strings.HasSuffix":           func(fr *frame, a []value) value { return fr.i.hasSuffix(strBytes(a[0]), strBytes(a[1])) },
+		"bytes.HasPrefix":             func(fr *frame, a []value) value { return fr.i.hasPrefix(a[0].([]value), a[1].([]value)) },
+		"bytes.HasSuffix":             func(fr *frame, a []value) value { return fr.i.hasSuffix(a[0].([]value), a[1].([]value)) },
+		"bytes.Equal":                 func(fr *frame, a []value) value { return fr.i.bytesEq(a[0].([]value), a[1].([]value)) },
+		"bytes.Compare":               func(fr *frame, a []value) value { return fr.i.bytesCompare(a[0].([]value), a[1].([]value)) },
+		"strings.Compare":             func(fr *frame, a []value) value { return fr.i.bytesCompare(strBytes(a[0]), strBytes(a[1])) },
 
 		// ---- strings.Builder (uses unsafe)
 		"(*strings.Builder).WriteString": sbWriteString,
